@@ -9,13 +9,14 @@ cycle set with the Lean driver; the direct oracle checks the property itself on
 the implementation's output with an independent reachability computation.
 """
 import itertools
+import os
 
 PID = "C19"
 LEVEL = "proof"
 LEAN = ["SaVerif.Props.C19"]
 META = {
-    "text": "Lean theorems (any graph size, any item order, duplicates allowed): output of sort is a permutation of the items, every dependency pair with both ends among the items is ordered parent-first, subsets are internally independent, self-dependencies raise, the loop terminates within len(items) rounds. The model is a hand transcription of util/topological.py tied to it by an exhaustive differential run over all digraphs on <=4 nodes plus random larger graphs, and the property itself is re-checked on the implementation output by an independent oracle.",
-    "note": "Trusted: Lean kernel; the correspondence harness (differential, exhaustive only up to 4 nodes); Python set/list semantics modelled as lists. error-iff-cycle and find_cycles exactness: see evidence theorems list for what is proved vs. correspondence-only.",
+    "text": "Lean theorems (any graph size, any item order, duplicates allowed): output of sort is a permutation of the items, every dependency pair with both ends among the items is ordered parent-first, subsets are internally independent, sort raises iff the dependencies among the items contain a cycle (sort_error_iff_cycle), find_cycles returns exactly the nodes on some cycle (find_cycles_exact), both loops terminate (fuel sufficiency proved). The model is a hand transcription of util/topological.py tied to it by an exhaustive differential run over all digraphs on <=4 nodes plus random larger graphs, and the property itself is re-checked on the implementation output by an independent oracle.",
+    "note": "Trusted: Lean kernel; the correspondence harness (differential, exhaustive only up to 4 nodes); Python set/list semantics modelled as lists. Set-iteration order in find_cycles is modelled as list order; the exactness theorem makes the result order-independent as a set.",
     "technique": "Lean 4 proof by induction over the sort loop + exhaustive small-scope correspondence with the Python implementation",
     "design_ref": "DESIGN.md §3 C19",
 }
@@ -184,14 +185,14 @@ def gen_cases(ctx, deep=False):
         for sub in ([0], [1, 2], [2, 0], []):
             if ctx.tier == "thorough" or deep or ctx.rng.random() < 0.2:
                 yield list(sub), ts, False
-    nrand = 20000 if (ctx.tier == "thorough" or deep) else 1500
+    nrand = 40000 if (ctx.tier == "thorough" or deep) else 4000
     maxnodes = 40 if (ctx.tier == "thorough" or deep) else 12
     for _ in range(nrand):
         n = ctx.rng.randint(2, maxnodes)
         universe = list(range(n + ctx.rng.randint(0, 2)))  # some tuples mention non-items
         dens = ctx.rng.choice([0.3, 0.8, 1.2, 2.0])
         m = int(n * dens)
-        acyclic = ctx.rng.random() < 0.6
+        acyclic = ctx.rng.random() < 0.4
         ts = []
         for _ in range(m):
             a, b = ctx.rng.choice(universe), ctx.rng.choice(universe)
@@ -205,6 +206,67 @@ def gen_cases(ctx, deep=False):
         items = list(range(n))
         ctx.rng.shuffle(items)
         yield items, ts, True
+
+
+# ---------------------------------------------------------------- 5-node sweep
+PAIRS5 = [(a, b) for a in range(5) for b in range(5) if a != b]  # 20 pairs, no self-loops
+
+
+def _cyc5_worker(arg):
+    """find_cycles on every loop-free digraph on 5 nodes with mask in [lo, hi)
+    stepping by `step`; oracle = bitmask transitive closure."""
+    lo, hi, step, salt, keep = arg
+    from sqlalchemy.util import topological
+
+    bad, n = [], 0
+    for mask in range(lo, hi, step):
+        if keep < 256 and ((mask * 2654435761 + salt) >> 7) & 255 >= keep:
+            continue
+        ts = [PAIRS5[k] for k in range(20) if mask >> k & 1]
+        adj = [0] * 5
+        for a, b in ts:
+            adj[a] |= 1 << b
+        reach = adj[:]
+        for k in range(5):
+            for i in range(5):
+                if reach[i] >> k & 1:
+                    reach[i] |= reach[k]
+        want = [i for i in range(5) if reach[i] >> i & 1]
+        got = sorted(topological.find_cycles(ts, range(5)))
+        n += 1
+        if got != want:
+            bad.append((ts, got, want))
+            if len(bad) > 20:
+                break
+    return n, bad
+
+
+def sweep5(ctx, deep):
+    """All 2^20 loop-free digraphs on 5 nodes (every labelling, so every small-int
+    set-iteration order), find_cycles vs reachability oracle, in parallel."""
+    import multiprocessing as mp
+
+    full = ctx.tier == "thorough" or deep
+    total = 1 << 20
+    if full:
+        chunks = [(w, total, 16, 0, 256) for w in range(16)]
+    else:
+        # quick: a seeded pseudo-random half of the space (multiplicative hash of the mask)
+        salt = ctx.rng.randrange(1 << 30)
+        chunks = [(w, total, 16, salt, 128) for w in range(16)]
+    with mp.get_context("fork").Pool(min(16, os.cpu_count() or 4)) as pool:
+        res = pool.map(_cyc5_worker, chunks)
+    n = sum(r[0] for r in res)
+    ctx.evaluations += n
+    ctx.count("sweep5-graphs", n)
+    for _, bad in res:
+        for ts, got, want in bad[:3]:
+            ctx.violation(
+                "c19-oracle",
+                {"items": list(range(5)), "tuples": ts},
+                "find_cycles %s != nodes on cycles %s" % (got, want),
+            )
+    return full
 
 
 def run(ctx, deep=False):
@@ -232,6 +294,10 @@ def run(ctx, deep=False):
             ctx.sample({"items": items, "tuples": tuples, "sort": res["sort"][1]})
         elif len(items) >= 5:
             ctx.sample({"items": items, "tuples": tuples, "cycles": res["sort"][1]}, cap=8)
+    full5 = sweep5(ctx, deep)
+    ctx.rule += "; plus find_cycles on %s loop-free digraphs on 5 nodes (all labellings) against a reachability oracle" % (
+        "ALL 2^20" if full5 else "a seeded pseudo-random half of the 2^20"
+    )
     if ctx.driver_ok():
         ctx.correspond("corr/c19:topological-vs-Model.Topo", cases, impl_out, ctx.driver(reqs))
     ctx.exhaustive = ctx.tier == "thorough"
